@@ -120,8 +120,8 @@ def base_flags(view="release", repo=None, extra=()):
     sd = shim_dir(view, repo)
     if sd:
         fl += ["-I" + sd]
-    fl += ["-I" + repo, "-I" + os.path.join(repo, "src")]
     fl += list(extra)
+    fl += ["-I" + repo, "-I" + os.path.join(repo, "src")]
     fl += ["-resource-dir", resource_dir()]
     return fl
 
@@ -139,11 +139,17 @@ class Unit:
         self.extra = tuple(extra)
         self.no_cfg = no_cfg
         self.repo = repo or REPO
+        self.root2 = None
+        self.cache_id = None
 
     def key(self):
         h = hashlib.sha256()
-        h.update(repr((self.src, self.main_only, self.file_re, self.name_re,
-                       self.view, self.extra, self.no_cfg, self.repo)).encode())
+        if self.cache_id:
+            h.update(repr((self.cache_id, self.main_only, self.file_re, self.name_re,
+                           self.view, self.no_cfg, self.repo)).encode())
+        else:
+            h.update(repr((self.src, self.main_only, self.file_re, self.name_re,
+                           self.view, self.extra, self.no_cfg, self.repo)).encode())
         h.update(tree_hash(self.repo).encode())
         try:
             h.update(str(os.path.getmtime(TOOL)).encode())
@@ -193,6 +199,8 @@ def _run_unit(u):
         raise AnalysisBroken("pplfacts not built: run `make -C /verif/tool`")
     tmp = out + ".tmp%d" % os.getpid()
     cmd = [TOOL, "--out", tmp, "--root", u.repo]
+    if u.root2:
+        cmd += ["--root2", u.root2]
     if u.main_only:
         cmd.append("--main-only")
     if u.file_re:
@@ -225,6 +233,7 @@ class Facts:
         self.tolerated = 0
         self._seen = set()
         self._by_q = {}
+        self.protos = {}
 
     def add_file(self, unit, path, tolerate=None):
         with open(path) as f:
@@ -249,6 +258,8 @@ class Facts:
             fn = Func(fj)
             self.functions.append(fn)
             self._by_q.setdefault(fn.q, []).append(fn)
+        for pr in d.get("protos", []):
+            self.protos.setdefault(pr["n"], (pr["file"], pr["line"]))
         for c in d["classes"]:
             k = (c["q"], c.get("t", ""))
             if k not in self.classes:
@@ -285,6 +296,9 @@ def extract(units, jobs=None, tolerate=None):
 
 # ---------------------------------------------------------------------------
 # AST access
+
+# free functions that return an alias of their first argument (typed handle conversions)
+ALIAS_CALLS = {"to_const", "to_nonconst"}
 
 WRITE_ASSIGN_OPS = {"=", "+=", "-=", "*=", "/=", "%=", "<<=", ">>=", "&=", "|=", "^="}
 
@@ -502,6 +516,8 @@ class Func:
                 return self.root(c[0], depth + 1)
             return ("temp",)
         if k == "call":
+            if n.get("cn") in ALIAS_CALLS and n.get("c"):
+                return self.root(n["c"][0], depth + 1)
             return ("temp",)
         if k == "cond":
             c = n.get("c", ())
